@@ -6,6 +6,9 @@ import Driver.Util
   parse <L|B> <size> <hex>                                        Nifti1Extensions.from_fileobj
   ser  <L|B> <k> <code:hex>*k                                     Nifti1Extensions.write_to / get_sizeondisk
   size <n>                                                        get_sizeondisk for n content bytes
+  voff <1|2> <s|p> <userOff> <k> <len>*k                          Nifti1Header.write_to on content LENGTHS only
+  f32 <n>                                                         int(np.float32(n))
+  f32n <s>                                                        int(np.nextafter(np.float32(s), inf)), s a float32 ≥ 2^24
   (hex: two lower-case digits per byte, "-" for the empty string) -/
 namespace Nb.Drv.C11
 open Nb Nb.C11
@@ -76,7 +79,7 @@ def handle : List String → String
             | .ok f => "W off=" ++ toString f.voxOffset ++ " hdr=" ++ showHex f.after ++ " img=- R " ++
                 showLoaded (readSingle fmt e f dat.length)
           else
-            match writePair e exts off dat with
+            match writePair fmt e exts off dat with
             | .error er => showErr er
             | .ok p => "W off=" ++ toString p.hdr.voxOffset ++ " hdr=" ++ showHex p.hdr.after ++ " img=" ++
                 showHex p.img ++ " R " ++ showLoaded (readPair fmt e p dat.length)
@@ -95,6 +98,24 @@ def handle : List String → String
           | .ok b => "ok " ++ toString (totalSize exts) ++ " " ++ showHex b
           | .error er => showErr er
       | _, _ => "bad-op"
+  | "voff" :: fmt :: kind :: off :: k :: lens =>
+      match (if fmt = "1" then some nifti1 else if fmt = "2" then some nifti2 else none),
+            (if kind = "s" then some true else if kind = "p" then some false else none),
+            off.toNat?, k.toNat?, lens.mapM String.toNat? with
+      | some fmt, some single, some off, some k, some lens =>
+          if lens.length ≠ k then "bad-op"
+          else match headerWriteSizes single fmt lens off with
+            | .ok (stored, pos) => "ok " ++ toString stored ++ " " ++ toString pos
+            | .error er => showErr er
+      | _, _, _, _, _ => "bad-op"
+  | ["f32", n] =>
+      match n.toNat? with
+      | some n => toString (f32round n)
+      | none => "bad-op"
+  | ["f32n", n] =>
+      match n.toNat? with
+      | some n => if f32round n = n ∧ 16777216 ≤ n then toString (f32next n) else "bad-op"
+      | none => "bad-op"
   | ["size", n] =>
       match n.toNat? with
       | some n => toString (sizeOnDisk n)
